@@ -1,13 +1,200 @@
 package main
 
-import "verifharness/rig"
+// Injected concurrency: another goroutine's store call lands inside the window of a running flush (after its
+// snapshot, right before it writes entry number At). Whether the call runs inside the window or has to wait for
+// the flush (store mutex) is OBSERVED, not assumed: the flush goroutine is held in a hook of the API stand-in
+// until the intruder has either returned or is parked on a mutex; a parked intruder is released only after the
+// flush has returned and been recorded (gate). Nothing depends on timing.
 
-// Probe: injected concurrency (filled in below).
-type Probe struct {
-	At        int   `json:"at"`
-	Item      int   `json:"item"`
-	Intruders []OpJ `json:"intruders"`
+import (
+	"bytes"
+	"math/rand"
+	"runtime"
+	"strings"
+	"time"
+
+	"verifharness/rig"
+)
+
+func (s *sim) setWindow(b bool) {
+	s.hookMu.Lock()
+	s.inWindow = b
+	s.hookMu.Unlock()
 }
 
-func evalProbe(c *rig.Ctx, cs Case) (*failure, *implRun) { return nil, nil }
-func generateProbes(c *rig.Ctx)                          {}
+func (s *sim) closeGate(owner string) {
+	s.hookMu.Lock()
+	s.gate = make(chan struct{})
+	s.gateOwner = owner
+	s.hookMu.Unlock()
+}
+
+func (s *sim) openGate() {
+	s.hookMu.Lock()
+	if s.gate != nil {
+		close(s.gate)
+		s.gate = nil
+	}
+	s.hookMu.Unlock()
+}
+
+// goroutine state of gid from a full dump: "" when it is gone
+func goState(gid string) string {
+	buf := make([]byte, 1<<20)
+	for {
+		n := runtime.Stack(buf, true)
+		if n < len(buf) {
+			buf = buf[:n]
+			break
+		}
+		buf = make([]byte, 2*len(buf))
+	}
+	prefix := []byte("goroutine " + gid + " [")
+	for _, g := range bytes.Split(buf, []byte("\n\n")) {
+		if bytes.HasPrefix(g, prefix) {
+			rest := g[len(prefix):]
+			if i := bytes.IndexByte(rest, ']'); i >= 0 {
+				return string(rest[:i])
+			}
+		}
+	}
+	return ""
+}
+
+func parkedOnMutex(state string) bool {
+	return strings.HasPrefix(state, "sync.Mutex.Lock") || strings.HasPrefix(state, "sync.RWMutex.") || strings.HasPrefix(state, "semacquire")
+}
+
+// watch waits until the goroutine has returned (outcome) or is parked on a mutex (blocked).
+func watch(gid string, done chan outcome) (o outcome, blocked bool) {
+	deadline := time.Now().Add(20 * time.Second)
+	parked := 0
+	for {
+		select {
+		case o = <-done:
+			return o, false
+		default:
+		}
+		if parkedOnMutex(goState(gid)) {
+			parked++
+			if parked >= 3 {
+				return outcome{}, true
+			}
+			time.Sleep(300 * time.Microsecond)
+			continue
+		}
+		parked = 0
+		if time.Now().After(deadline) {
+			return outcome{hung: true}, false
+		}
+		time.Sleep(20 * time.Microsecond)
+	}
+}
+
+// arm installs the hook that opens the window of the next flush.
+func (r *runner) arm(intr *IntrJ) *window {
+	win := &window{}
+	seen := map[string]bool{}
+	r.sim.setHook(func(kind, name string) bool {
+		if kind != "update" || seen[name] {
+			return false
+		}
+		idx := len(seen)
+		seen[name] = true
+		if idx != intr.At {
+			return false
+		}
+		// the flush is about to write entry number At of its snapshot
+		me := goID()
+		win.opened = true
+		win.m1 = r.mark()
+		r.sim.setWindow(true)
+		gidCh, done := spawn(r.thunk(intr.Op))
+		o, blocked := watch(<-gidCh, done)
+		win.done = done
+		switch {
+		case blocked:
+			win.blocked = true
+			r.sim.closeGate(me)
+		case o.hung || o.panicked != "":
+			win.fail = o.bad("concurrent " + intr.Op.Op)
+		default:
+			win.inside = true
+			win.outcome = o
+			if intr.Op.Op == "stop" && o.err == nil {
+				r.stopped = true
+			}
+		}
+		win.m2 = r.mark()
+		r.sim.setWindow(false)
+		return true
+	})
+	return win
+}
+
+// ---------------------------------------------------------------------------------------------------------
+
+func genProbe(r *rand.Rand) Case {
+	cs := Case{Kind: "probe", Count: 1 + r.Intn(2), WT: r.Intn(3) != 0, Wf: true, CrashAt: -1}
+	cs.Shard = r.Intn(cs.Count)
+	own, _ := ownUpstreams(cs.Shard, cs.Count)
+	if len(own) == 0 {
+		cs.Shard = 0
+		cs.Count = 1
+		own = upstreamsU
+	}
+	cs.Gain = cs.Shard
+	cs.Init = genInit(r, true)
+	names := []string{}
+	n := 1 + r.Intn(4)
+	for i := 0; i < n; i++ {
+		up := rig.Pick(r, own)
+		name := up + "." + rig.Pick(r, suffixes)
+		names = append(names, name)
+		cs.Ops = append(cs.Ops, OpJ{Op: "save", Key: rig.Hex(up), Cond: genCond(r, up, name)})
+	}
+	if r.Intn(3) == 0 {
+		cs.Ops = append(cs.Ops, OpJ{Op: "load"})
+	}
+	// the intruder
+	var iop OpJ
+	name := rig.Pick(r, names)
+	up := name[:strings.IndexByte(name, '.')]
+	if r.Intn(4) == 0 {
+		up = rig.Pick(r, own)
+		name = up + "." + rig.Pick(r, suffixes)
+	}
+	switch x := r.Intn(100); {
+	case x < 55:
+		iop = OpJ{Op: "save", Key: rig.Hex(up), Cond: genCond(r, up, name)}
+	case x < 72:
+		iop = OpJ{Op: "delete", Key: rig.Hex(up), Name: rig.Hex(name)}
+	case x < 82:
+		iop = OpJ{Op: "deleteUpstream", Key: rig.Hex(up)}
+	case x < 92:
+		iop = OpJ{Op: "load"}
+	default:
+		iop = OpJ{Op: "flush"}
+	}
+	f := OpJ{Op: "flush", Intr: &IntrJ{At: r.Intn(3), Op: iop}}
+	if r.Intn(2) == 0 {
+		f.Op = "stop"
+	}
+	cs.Ops = append(cs.Ops, f)
+	for i := r.Intn(3); i > 0; i-- {
+		cs.Ops = append(cs.Ops, genOp(r, &cs, cs.Shard, true))
+	}
+	if r.Intn(3) == 0 {
+		cs.Script = genScript(r, 3*len(cs.Ops))
+	}
+	return cs
+}
+
+func generateProbes(c *rig.Ctx) {
+	n := c.Budget(400, 8000)
+	cases := make([]Case, 0, n)
+	for i := 0; i < n; i++ {
+		cases = append(cases, genProbe(c.Rng))
+	}
+	evaluate(c, cases)
+}
